@@ -356,5 +356,19 @@ EXTRA_TEXT = {
            "library's own HTTP loader and cache over histories with re-published contexts, expiry and transient origin failures (a success is the merklization under one published revision).",
     "C07": " The same verification also runs through verifiable.HTTPDIDResolver against a scripted gateway (transient 5xx): same verdict, same questions asked. Known finding F8: status nonces are read back through float64 inside VerifyProof; the model receives the nonce as the verifier reads it (oracle column).",
 }
+_FACTS = (" Regenerated tie: on every run a small go/ast translator (harness `facts`) reads {what} off the source and bin/check generates a Lean file whose theorems "
+          "(SourceFacts.{thms}) prove that the model's definitions are those very values; a change of the source breaks the obligation by name.")
+for _pid, _what, _thms in [
+    ("C05", "the serialization attribute's prefix, part limit and key table (ParseSerializationAttr)", "ser_prefix_is_models, ser_parts_limit_is_models, ser_keys_are_models"),
+    ("C17", "ParseSerializationAttr's prefix, part limit and key table and GetFieldSlotIndex's switch", "ser_*_is_models, slot_switch_is_models; Props.C17.slotIndexOf_eq_table and setField_getField relate the tables to the model's functions"),
+    ("C19", "the bound on alternate links", "alternate_hops_is_models"),
+    ("C12", "the bound on alternate links and the depth of every tree the merklizer creates", "alternate_hops_is_models, tree_depth_is_models"),
+    ("C09", "the size limit of a status response", "status_limit_is_models"),
+    ("C02", "the depth of every tree the merklizer creates", "tree_depth_is_models"),
+    ("C13", "the depth of every tree the merklizer creates and the safe-mode value of every Merklizer literal", "tree_depth_is_models, safe_default_is_models"),
+    ("C15", "the safe-mode value every Merklizer literal starts with", "safe_default_is_models"),
+]:
+    EXTRA_TEXT[_pid] = EXTRA_TEXT.get(_pid, "") + _FACTS.format(what=_what, thms=_thms)
+    MANIFEST_TEXT[_pid].setdefault("technique", "Lean 4 theorems about a hand-written model + differential correspondence check against the Go code + model constants/tables re-proved against facts regenerated from the Go source (go/ast) on every run")
 for _pid, _t in EXTRA_TEXT.items():
     MANIFEST_TEXT[_pid]["text"] = MANIFEST_TEXT[_pid]["text"] + _t
